@@ -88,5 +88,31 @@ func factsC13(r *Repo) []Fact {
 		f.Note = "no go statements found"
 	}
 	out = append(out, f)
+
+	// failedTaskReportedAsIs: in runner.resolveInterruptCompletedTasks the failure of a completed task is
+	// returned as `wrapGraphNodeError(<task>.nodeKey, <task>.err)` of that single task, from inside the loop
+	// over the completed tasks (no aggregation of several failures into a new error value).
+	if fd, file := cp.Func("runner", "resolveInterruptCompletedTasks"); fd == nil || fd.Body == nil {
+		out = append(out, unknownFact("failedTaskReportedAsIs", "Bool", "false", "compose", "runner.resolveInterruptCompletedTasks not found"))
+	} else {
+		single, other := 0, 0
+		ast.Inspect(fd.Body, func(n ast.Node) bool {
+			rs, ok := n.(*ast.ReturnStmt)
+			if !ok || len(rs.Results) != 1 {
+				return true
+			}
+			txt := exprString(rs.Results[0])
+			switch {
+			case txt == "nil":
+			case strings.HasPrefix(txt, "wrapGraphNodeError(") && strings.Contains(txt, ".nodeKey") && strings.HasSuffix(txt, ".err)"):
+				single++
+			default:
+				other++
+			}
+			return true
+		})
+		out = append(out, boolFact("failedTaskReportedAsIs", single >= 1 && other == 0,
+			"compose/"+file+": resolveInterruptCompletedTasks returns wrapGraphNodeError(task.nodeKey, task.err) of one failed task"))
+	}
 	return out
 }
